@@ -140,6 +140,12 @@ class Check:
         self.trusted = []
         self.findings = load_findings()
         os.makedirs(REPLAYS, exist_ok=True)
+        for f in os.listdir(REPLAYS):          # replays of earlier runs of this check/seed
+            if f.startswith("%s-%s-" % (self.pid, self.seed)):
+                try:
+                    os.remove(os.path.join(REPLAYS, f))
+                except OSError:
+                    pass
 
     def oblige(self, name, ok, detail=""):
         self.obligations.append((name, bool(ok), detail))
